@@ -75,9 +75,9 @@ func NewEnv(seed int, pick func(n int) int) *Env {
 	e.I = scal[pick(len(scal))]
 	e.J = scal[pick(len(scal))]
 	e.I8 = int8(scal[pick(len(scal))])
-	e.U8 = uint8(scal[pick(4)])
+	e.U8 = []uint8{0, 1, 255, 2}[pick(4)]
 	e.I64 = int64(scal[pick(len(scal))])
-	e.U = uint(scal[pick(4)])
+	e.U = []uint{0, 1, 2, 7}[pick(4)] // small on purpose: the driver refuses to build run-time ranges when the env holds huge integers
 	e.F = []float64{0, 1.5, -2.25, 3, 100.5}[pick(5)]
 	e.F32 = []float32{0, 0.5, -1.5, 2}[pick(4)]
 	e.S = []string{"", "a", "abc", "hello world", "xyz"}[pick(5)]
